@@ -167,16 +167,18 @@ econf_err getBoolValueNum(econf_file key_file, size_t num, bool *result) {
   if (key_file.file_entry[num].value == NULL)
     return ECONF_KEY_HAS_NULL_VALUE;
   tmp = strdup(key_file.file_entry[num].value);
+  if (tmp == NULL)
+    return ECONF_NOMEM;
+  /* compare a lower case copy; the stored value is left as it is */
   value = toLowerCase(tmp);
-  size_t hash = hashstring(toLowerCase(key_file.file_entry[num].value));
   econf_err err = ECONF_SUCCESS;
 
-  if ((*value == '1' && strlen(tmp) == 1) || hash == YES || hash == TRUE)
+  if (!strcmp(value, "1") || !strcmp(value, "yes") || !strcmp(value, "true"))
     *result = true;
-  else if ((*value == '0' && strlen(tmp) == 1) || !*value ||
-	   hash == NO || hash == FALSE)
+  else if (!strcmp(value, "0") || !*value ||
+	   !strcmp(value, "no") || !strcmp(value, "false"))
     *result = false;
-  else if (hash == KEY_FILE_NULL_VALUE_HASH)
+  else if (!strcmp(value, KEY_FILE_NULL_VALUE))
     err = ECONF_KEY_HAS_NULL_VALUE;
   else
     err = ECONF_PARSE_ERROR;
@@ -287,16 +289,18 @@ econf_err setBoolValueNum(econf_file *kf, size_t num, const void *v) {
   const char *value = (const char*) (v ? v : KEY_FILE_NULL_VALUE);
   econf_err error = ECONF_SUCCESS;
   char *tmp = strdup(value);
-  size_t hash = hashstring(toLowerCase(tmp));
+  if (tmp == NULL)
+    return ECONF_NOMEM;
+  toLowerCase(tmp);
 
-  if ((*value == '1' && strlen(tmp) == 1) || hash == YES || hash == TRUE) {
+  if (!strcmp(tmp, "1") || !strcmp(tmp, "yes") || !strcmp(tmp, "true")) {
     free(kf->file_entry[num].value);
     kf->file_entry[num].value = strdup("true");
-  } else if ((*value == '0' && strlen(tmp) == 1) ||
-             hash == NO || hash == FALSE) {
+  } else if (!strcmp(tmp, "0") ||
+             !strcmp(tmp, "no") || !strcmp(tmp, "false")) {
     free(kf->file_entry[num].value);
     kf->file_entry[num].value = strdup("false");
-  } else if (hash == KEY_FILE_NULL_VALUE_HASH || strlen(value) == 0) {
+  } else if (!strcmp(tmp, KEY_FILE_NULL_VALUE) || strlen(value) == 0) {
     free(kf->file_entry[num].value);
     kf->file_entry[num].value = strdup(KEY_FILE_NULL_VALUE);
   } else { error = ECONF_WRONG_BOOLEAN_VALUE; }
